@@ -583,6 +583,18 @@ fn main() {
                 }
             }
         }
+        // (D) fields whose gradient vanishes on the whole surface (the cube of a distance field: same solid, same surface,
+        // zero gradient at every crossing) or is infinite there (the cube root, written sign(s) * sqrt(sqrt(s*s)) is not
+        // expressible; the square root of a shifted field is): the mesh must still be finite, closed and of the right volume
+        for (q, b0) in solids.iter().enumerate().take(3) {
+            let t = b0.ctx.export(b0.root).unwrap();
+            let cubed = t.clone() * t.clone() * t.clone();
+            let mut b = Built { ctx: Context::new(), root: b0.root, desc: format!("{} cubed", b0.desc) };
+            b.root = b.ctx.import(&cubed);
+            let kind = json!({"kind": "shape", "model_ntri": -1, "model_manifold": true});
+            if q % 2 == 0 { run::<VmFunction>(&mut w, &mut id, "vm", &b, nd, 0, Matrix4::identity(), 1.0, "identity", Vector3::zeros(), &kind); }
+            else { run::<JitFunction>(&mut w, &mut id, "jit", &b, nd, 3, Matrix4::identity(), 1.0, "identity", Vector3::zeros(), &kind); }
+        }
         let _ = Tree::x();
     }
     w.flush().unwrap();
